@@ -109,6 +109,7 @@ class Env:
     self.alloc = seams.AllocFault()
     if plan["kind"] in ("ec", "ecdsa"):
       self.alloc.install()
+    self.callfault = None
     self.armed = None
     self.constructed = {}
     self._set_knobs(knobs)
@@ -298,7 +299,8 @@ def subject_segment(plan, start, pool_bytes):
       arts = [pool_arts[j] for j in batch] if name != "bad_call" else \
           op["arts"]
       fired0 = (len(env.res.fired) + env.storage_counters.get("fired", 0) +
-                env.alloc.fired)
+                env.alloc.fired +
+                (env.callfault.fired if env.callfault else 0))
       ev["armed"] = env.armed is not None
       ev["state_before"] = state_probe()
       if name == "bad_call":
@@ -319,7 +321,10 @@ def subject_segment(plan, start, pool_bytes):
         if kind == "ecdsa" and op.get("issuer_oracle"):
           ev["issuer_oracle"] = issuer_oracle(arts)
       ev["fired"] = (len(env.res.fired) + env.storage_counters.get("fired", 0)
-                     + env.alloc.fired - fired0)
+                     + env.alloc.fired +
+                     (env.callfault.fired if env.callfault else 0) - fired0)
+      if env.callfault and env.callfault.where and ev["fired"]:
+        ev["fault_where"] = env.callfault.where
       ev["state_after"] = state_probe()
       hung = [x for x in (ev.get("ret_clean"), ev.get("ret"))
               if x and x.get("exc") == "CallTimeout"]
@@ -351,6 +356,10 @@ def subject_segment(plan, start, pool_bytes):
                      else "torn"})
       elif op["kind"] == "alloc_fail":
         env.alloc.arm(op["method"], op["k"])
+      elif op["kind"] == "call_fail":
+        if env.callfault is None:
+          env.callfault = seams.CallFault()
+        env.callfault.arm(op["modules"], op["k"])
       elif op["kind"] == "storage_raise":
         env.storage_counters["armed"] = True
         env.storage_counters["armed_at"] = env.storage_counters.get(
@@ -359,6 +368,8 @@ def subject_segment(plan, start, pool_bytes):
     elif name == "heal":
       env.res.heal()
       env.alloc.heal()
+      if env.callfault:
+        env.callfault.heal()
       env.storage_counters["armed"] = False
       env.armed = None
     elif name == "curve_op":
@@ -376,6 +387,7 @@ def subject_segment(plan, start, pool_bytes):
           "faults_fired": [list(f) for f in env.res.fired],
           "storage_fired": env.storage_counters.get("fired", 0),
           "alloc_fired": env.alloc.fired,
+          "call_fired": env.callfault.fired if env.callfault else 0,
           "resource_opens": env.res.total_opens,
           "log_counts": seams.log_counts()}
 
